@@ -146,7 +146,7 @@ def _reference(seed, n=60):
     return pos
 
 
-SCENARIOS = ["query-longer-than-every-reference", "one-label-query", "two-label-query", "one-label-reference", "duplicate-positions",
+SCENARIOS = ["reference-label-desert", "query-longer-than-every-reference", "one-label-query", "two-label-query", "one-label-reference", "duplicate-positions",
              "alignable-plus-unalignable", "alignable-only", "no-queries-align"]
 
 
@@ -162,6 +162,8 @@ def _scenario_maps(name, seed):
         return {1: (rl, ref)}, {7: (20000.0, [2500.0, 12000.0])}
     if name == "one-label-reference":
         return {1: (400000.0, [200000.0])}, {7: (good[-1] + 900, good)}
+    if name == "reference-label-desert":    # the only reference label lies before the query's span: refine windows hold no label
+        return {1: (400000.0, [5000.0])}, {7: (good[-1] + 900, good)}
     if name == "duplicate-positions":
         return {1: (rl, ref[:30] + [ref[29]] + ref[30:])}, {7: (good[-1] + 900, good[:5] + [good[4]] + good[5:])}
     if name == "alignable-plus-unalignable":
